@@ -267,34 +267,34 @@ fn progress_vs_plain(ctx: &Ctx) {
 }
 
 fn progress_vs_plain_inner(ctx: &Ctx) {
-    for seed in [7u64, 42] {
+    for (seed, nch) in [(7u64, 3usize), (42, 3), (42, 1), (7, 2)] {
         super::c10::reset_bounded_pub();
-        let case = json!({"part": "progress", "seed": seed});
+        let case = json!({"part": "progress", "seed": seed, "n_chains": nch});
         ctx.evals(1);
         // MH
-        let a = mh_run_bits(&mut mh_build(3, Some(seed), false), 5, 2);
-        let b = catch(|| mh_build(3, Some(seed), false).run_progress(5, 2).map(|x| arr3_bits(&x.0)).map_err(|e| e.to_string())).and_then(|r| r);
+        let a = mh_run_bits(&mut mh_build(nch, Some(seed), false), 5, 2);
+        let b = catch(|| mh_build(nch, Some(seed), false).run_progress(5, 2).map(|x| arr3_bits(&x.0)).map_err(|e| e.to_string())).and_then(|r| r);
         cmp(ctx, "MH", a, b, &case);
-        let a = gibbs_build(3, Some(seed)).run(5, 2).map(|x| arr3_bits(&x)).map_err(|e| e.to_string());
-        let b = catch(|| gibbs_build(3, Some(seed)).run_progress(5, 2).map(|x| arr3_bits(&x.0)).map_err(|e| e.to_string())).and_then(|r| r);
+        let a = gibbs_build(nch, Some(seed)).run(5, 2).map(|x| arr3_bits(&x)).map_err(|e| e.to_string());
+        let b = catch(|| gibbs_build(nch, Some(seed)).run_progress(5, 2).map(|x| arr3_bits(&x.0)).map_err(|e| e.to_string())).and_then(|r| r);
         cmp(ctx, "Gibbs", a, b, &case);
-        let a = catch(|| tensor_bits(&hmc_build::<f32, BF32>(3, Some(seed), false).run(5, 2)));
-        let b = catch(|| hmc_build::<f32, BF32>(3, Some(seed), false).run_progress(5, 2).map(|x| tensor_bits(&x.0)).map_err(|e| e.to_string())).and_then(|r| r);
+        let a = catch(|| tensor_bits(&hmc_build::<f32, BF32>(nch, Some(seed), false).run(5, 2)));
+        let b = catch(|| hmc_build::<f32, BF32>(nch, Some(seed), false).run_progress(5, 2).map(|x| tensor_bits(&x.0)).map_err(|e| e.to_string())).and_then(|r| r);
         cmp(ctx, "HMC<f32,NdArray<f32>>", a, b, &case);
         for (nm, a, b) in [
-            ("HMC<f32,NdArray<f64>>", catch(|| tensor_bits(&hmc_build::<f32, BF64>(3, Some(seed), false).run(5, 2))), catch(|| hmc_build::<f32, BF64>(3, Some(seed), false).run_progress(5, 2).map(|x| tensor_bits(&x.0)).map_err(|e| e.to_string())).and_then(|r| r)),
-            ("HMC<f64,NdArray<f64>>", catch(|| tensor_bits(&hmc_build::<f64, BF64>(3, Some(seed), false).run(5, 2))), catch(|| hmc_build::<f64, BF64>(3, Some(seed), false).run_progress(5, 2).map(|x| tensor_bits(&x.0)).map_err(|e| e.to_string())).and_then(|r| r)),
-            ("HMC<f64,NdArray<f32>>", catch(|| tensor_bits(&hmc_build::<f64, BF32>(3, Some(seed), false).run(5, 2))), catch(|| hmc_build::<f64, BF32>(3, Some(seed), false).run_progress(5, 2).map(|x| tensor_bits(&x.0)).map_err(|e| e.to_string())).and_then(|r| r)),
+            ("HMC<f32,NdArray<f64>>", catch(|| tensor_bits(&hmc_build::<f32, BF64>(nch, Some(seed), false).run(5, 2))), catch(|| hmc_build::<f32, BF64>(nch, Some(seed), false).run_progress(5, 2).map(|x| tensor_bits(&x.0)).map_err(|e| e.to_string())).and_then(|r| r)),
+            ("HMC<f64,NdArray<f64>>", catch(|| tensor_bits(&hmc_build::<f64, BF64>(nch, Some(seed), false).run(5, 2))), catch(|| hmc_build::<f64, BF64>(nch, Some(seed), false).run_progress(5, 2).map(|x| tensor_bits(&x.0)).map_err(|e| e.to_string())).and_then(|r| r)),
+            ("HMC<f64,NdArray<f32>>", catch(|| tensor_bits(&hmc_build::<f64, BF32>(nch, Some(seed), false).run(5, 2))), catch(|| hmc_build::<f64, BF32>(nch, Some(seed), false).run_progress(5, 2).map(|x| tensor_bits(&x.0)).map_err(|e| e.to_string())).and_then(|r| r)),
         ] {
             cmp(ctx, nm, a, b, &case);
         }
         // NUTS: run_progress(n, d) == run(n+1, d) without its first row
         let a = catch(|| {
-            let t = nuts_build::<f32, BF32>(3, Some(seed), false).run(6, 2);
+            let t = nuts_build::<f32, BF32>(nch, Some(seed), false).run(6, 2);
             let c = cube(&t);
             c.iter().flat_map(|ch| ch[1..].iter().flatten().map(|x| x.to_bits()).collect::<Vec<_>>()).collect::<Vec<u64>>()
         });
-        let b = catch(|| nuts_build::<f32, BF32>(3, Some(seed), false).run_progress(5, 2).map(|x| tensor_bits(&x.0)).map_err(|e| e.to_string())).and_then(|r| r);
+        let b = catch(|| nuts_build::<f32, BF32>(nch, Some(seed), false).run_progress(5, 2).map(|x| tensor_bits(&x.0)).map_err(|e| e.to_string())).and_then(|r| r);
         cmp(ctx, "NUTS<f32,NdArray<f32>>", a, b, &case);
     }
 }
